@@ -60,6 +60,95 @@ pub fn colr_strategy() -> impl Strategy<Value = ColrCase> {
         })
 }
 
+/// Deep acyclic chains: `depth` nested paints (transforms, glyph clips, composites, single-layer PaintColrLayers) with a
+/// PaintColrGlyph hop to a fresh base glyph every `hop` levels (0 = never). "Too-deep paint graphs are reported as
+/// errors rather than recursed into": far beyond any documented depth limit (the library's is 64) the paint must fail.
+#[derive(Clone, Debug, Serialize, Deserialize)]
+pub struct DeepCase {
+    pub depth: u8,
+    pub hop: u8,
+    pub kinds: Vec<u8>,
+    pub direct: Vec<bool>,
+}
+
+pub fn deep_strategy() -> impl Strategy<Value = DeepCase> {
+    (prop_oneof![20u8..60, 60u8..70, 70u8..130, 130u8..=250], prop_oneof![Just(0u8), 2u8..20, 20u8..64, 64u8..80], proptest::collection::vec(0u8..5, 8), proptest::collection::vec(proptest::bool::weighted(0.8), 8))
+        .prop_map(|(depth, hop, kinds, direct)| DeepCase { depth, hop, kinds, direct })
+}
+
+pub fn deep_to_colr(d: &DeepCase) -> (ColrCase, u64) {
+    let n = d.depth as usize;
+    let mut nodes: Vec<Node> = Vec::with_capacity(n + 1);
+    let mut roots: Vec<(u16, u8)> = vec![(0, 0)];
+    let mut levels = 0u64; // paint tables on the single root-to-leaf path
+    let mut glyph_nodes = 0;
+    for i in 0..n {
+        let child = (i + 1) as u8;
+        let direct = d.direct[i % d.direct.len()];
+        if d.hop > 0 && i > 0 && i % d.hop as usize == 0 {
+            let gid = roots.len() as u16;
+            roots.push((gid, child));
+            nodes.push(Node::ColrGlyph { gid });
+            levels += 1;
+            continue;
+        }
+        // PaintGlyph re-traverses its subtree when the fill optimisation fails (2^k work for k nested PaintGlyph,
+        // none of it visible to the painter's callback budget): at most 6 of them per chain (DESIGN.md C13-L)
+        let mut kind = d.kinds[i % d.kinds.len()];
+        if kind == 1 {
+            if glyph_nodes >= 6 {
+                kind = 0;
+            } else {
+                glyph_nodes += 1;
+            }
+        }
+        let node = match kind {
+            0 => Node::Xform { fmt: (i % 10) as u8, var: false, child, direct, vals: [3, 5, 7, 11] },
+            1 => Node::Glyph { child, direct, gid: 1 },
+            2 => Node::Composite { src: child, src_direct: direct, mode: 3, backdrop: n as u8, backdrop_direct: true },
+            3 => Node::Layers { first: child, count: 1, wild: true },
+            _ => Node::Xform { fmt: 1, var: false, child, direct, vals: [1, 1, 0, 0] },
+        };
+        // a non-direct child goes through an inline PaintColrLayers(1, child) wrapper: one more table on the path
+        levels += match &node {
+            Node::Layers { .. } => 1,
+            _ => 1 + u64::from(!direct),
+        };
+        nodes.push(node);
+    }
+    nodes.push(Node::Solid { var: false, palette: 0, alpha: 0x4000 });
+    levels += 1;
+    (ColrCase { nodes, roots, v0_base: vec![], v0_layers: vec![], clips: vec![], var_bases: vec![], with_index_map: false, coords: vec![], script: vec![] }, levels)
+}
+
+pub fn test_deep(d: &DeepCase, stats: &Stats, strict: bool) -> CaseResult {
+    let (c, levels) = deep_to_colr(d);
+    let bytes = build_font(&c);
+    let mut st = PaintStats::default();
+    let r = guard::catch(|| -> Result<(), (String, String)> {
+        let font = FontRef::new(&bytes).map_err(|e| ("c13|harness-font".to_string(), format!("generated font does not open: {e}")))?;
+        let before_ok = st.ok;
+        colrgen::paint_and_check(&font, 0, &[], &[], false, &mut st)?;
+        let painted_ok = st.ok > before_ok;
+        // the path from the root holds at least d.depth paint tables; the library documents a depth limit of 64
+        if painted_ok && d.depth >= 130 {
+            return Err(("c13|too-deep-not-reported".into(), format!("a paint graph nesting {} paint tables ({} counting layer wrappers) under one colour glyph painted successfully: too-deep graphs must be reported as errors, not recursed into", d.depth, levels)));
+        }
+        if painted_ok {
+            stats.class("deep_chain_painted_ok");
+        } else {
+            stats.class("deep_chain_err");
+        }
+        Ok(())
+    });
+    if d.depth >= 130 {
+        stats.nontrivial(hash_json(d));
+    }
+    stats.class(if d.hop == 0 { "deep_chain_without_glyph_hops" } else { "deep_chain_with_glyph_hops" });
+    note(stats, &st, hash_json(d) ^ 7);
+    fail_of(strict, r, stats)
+}
+
 pub fn build_font(c: &ColrCase) -> Vec<u8> {
     let a = colrgen::assemble(c);
     let kit = fontkit::Kit { num_glyphs: a.num_glyphs.max(16), upem: 1000, extra: vec![(*b"COLR", a.colr)], ..Default::default() };
@@ -164,6 +253,7 @@ pub fn test_bytes(ix: &CorpusIndex, c: &ByteCase, stats: &Stats, strict: bool) -
 
 pub fn stages(ctx: &Ctx, strict: bool) {
     ctx.prop_stage("generated-graphs", Isolation::Procs, ctx.n(1_000_000, 10_000_000), colr_strategy, |c, s| test_generated(c, s, strict));
+    ctx.prop_stage("deep-chains", Isolation::Procs, ctx.n(40_000, 400_000), deep_strategy, |c, s| test_deep(c, s, strict));
     let ix = colr_corpus();
     // corpus COLR fonts unmutated, then COLR/CPAL/glyf table havoc
     let plain: Vec<ByteCase> = ix.fonts.iter().map(|f| ByteCase { m: MutCase { font: f.name.clone(), table: "FILE".into(), edits: vec![] }, coords: vec![], script: vec![] }).collect();
